@@ -26,7 +26,9 @@ RESERVED_TYPES = {"packetfamily", "packetaction", "eoreader", "eowriter", "seria
 RESERVED_BY_PATH = {"": {"net", "map", "pub"}, "net": {"client", "server"}, "pub": {"server"}}
 # names that become awkward module / attribute names somewhere in the package (C18, C20)
 AWKWARD = ["Data", "Encrypt", "Protocol", "Net2", "MapX", "Pub9", "Enum", "Int", "Type", "List", "Dict", "Reader", "Writer",
-           "Client", "Server", "PACKET", "Net", "Map", "Pub", "Sys", "Abc", "Typing"]
+           "Client", "Server", "PACKET", "Net", "Map", "Pub", "Sys", "Abc", "Typing",
+           # names whose module path contains text a path / extension manipulation might trip over
+           "Pyramid", "PyThing", "XmlDoc", "Init", "Generated", "Eolib"]
 COMMENT_BITS = ["The thing", "used for <b>stuff</b> & more", "it's > 9", "line one\nline two", "100% of 'it'", "a < b", "§ ünï ©"]
 INT_KINDS = ["byte", "char", "short", "three", "int"]
 
